@@ -190,6 +190,9 @@ class PDLInterpFunctions(InterpreterFunctions):
         args: tuple[Any, ...],
     ) -> tuple[Any, ...]:
         assert len(args) == 1
+        if isinstance(args[0], tuple | list):
+            # a range of values yields the range of their types
+            return ([cast(SSAValue, v).type for v in cast(tuple[Any, ...], args[0])],)
         assert isinstance(args[0], SSAValue)
         value = cast(SSAValue, args[0])
         return (value.type,)
@@ -457,7 +460,12 @@ class PDLInterpFunctions(InterpreterFunctions):
                 properties[name] = prop_or_attr
             else:
                 attributes[name] = prop_or_attr
-        result_types = list(args[num_operands + num_attributes :])
+        result_types: list[Any] = []
+        for type_or_range in args[num_operands + num_attributes :]:
+            if isinstance(type_or_range, tuple | list):
+                result_types.extend(cast(list[Any], type_or_range))
+            else:
+                result_types.append(type_or_range)
 
         # Create the new operation
         result_op = op_type.create(
